@@ -66,8 +66,8 @@ def _c15_post(results):
 
 PROPS.update({
     "C03": dict(
-        sub="c03", cfgs=["D", "C"], rule="every finite non-negative float of the stated sets is rendered three ways (shortest and 9/17 significant digits by core::fmt, full exact expansion by the harness' naturals), each written in scientific and in positional notation (what `{:e}` and `{}` print), and parsed back by the real code; bits must be identical. Non-trivial: the input leaves the plain fast path.",
-        exhaustive_over={"quick": "f64: 2047 binades x ~220 patterns; f32: 255 binades x ~150 patterns and four complete binades (2^25 values); x 3 renderings",
+        sub="c03", cfgs=["D", "C"], hard=True, rule="every finite non-negative float of the stated sets is rendered three ways (shortest and 9/17 significant digits by core::fmt, full exact expansion by the harness' naturals), each written in scientific and in positional notation (what `{:e}` and `{}` print), and parsed back by the real code; bits must be identical. Non-trivial: the input leaves the plain fast path.",
+        exhaustive_over={"quick": "f64: 2047 binades x ~220 patterns; f32: 255 binades x ~150 patterns and four complete binades (2^25 values); RT-HARD: the ~60 k floats (and neighbours) that have a 15..17 / 7..9-digit decimal within 1e-8 ulp of a rounding boundary, at every decimal exponent incl. the subnormal range (exact number-theoretic search); x 3 renderings x {scientific, positional}",
                          "thorough": "f32: ALL 2^31-2^23 finite non-negative values x 3 renderings; f64: 2047 binades x ~4200 patterns + complete low-20-bit sweeps in 4 binades"},
         assumptions=ASSUME_EXACT + ["core::fmt renders shortest / fixed-precision digits correctly (cross-checked by the exact oracle on every case judged in full mode)"]),
     "C04": dict(
@@ -103,7 +103,7 @@ PROPS.update({
         assumptions=["equality of the spelled values is re-asserted exactly by the harness"]),
     "C15": dict(
         sub="c15", cfgs=["D", "C", "N", "NC", "A"], hard=True, post=_c15_post,
-        rule="a counting global allocator with a thread-local counter is read before and after every parse_float call; the delta must be 0 in every configuration without `alloc`. Monitor validity: the `alloc` configuration must be seen allocating. Non-trivial: more than 19 digits (big-integer or truncated path).",
+        rule="a counting global allocator with a thread-local counter is read before and after every parse_float call - through slice iterators and, for inputs of more than 19 digits, also through Chain+Filter iterators (inexact size hint) - and the delta must be 0 in every configuration without `alloc`. Monitor validity: the `alloc` configuration must be seen allocating. Non-trivial: more than 19 digits (big-integer or truncated path).",
         exhaustive_over={"quick": "SHORT(3), SEAM, EXTREME, BOUNDARY-LIGHT (every 2nd binade), DEEP, thresholds, LONG(10^5), HARD(q): every path class incl. pow >= 135 / long_mul inputs", "thorough": "every binade"},
         assumptions=["the counter sees every allocation made through the global allocator on the calling thread"]),
 })
